@@ -271,7 +271,9 @@ func checkC03(c *Check) {
 		importObls(c, "C10", checkC10, "C03.R2", func(o *Obligation) bool { return strings.HasPrefix(o.Key, "C10.R1/predicate") })
 		// the callback reaches the OIDC filter: a path that some trigger rule includes is checked whatever another rule
 		// excludes (decision shape of C07.R3)
-		importObls(c, "C07", checkC07, "C03.R8", func(o *Obligation) bool { return strings.HasPrefix(o.Key, "C07.R3/") || strings.HasPrefix(o.Key, "C07.R1/anchor") })
+		importObls(c, "C07", checkC07, "C03.R8", func(o *Obligation) bool {
+			return strings.HasPrefix(o.Key, "C07.R3/") || strings.HasPrefix(o.Key, "C07.R1/anchor")
+		})
 	}
 
 	// ---- R4
